@@ -1,7 +1,7 @@
 #!/usr/bin/env python3
 """Regenerates MANIFEST.json from the table below (run after adding a check)."""
 import json, os, subprocess
-HOOK_COMMITS = ["b90bd7e", "6ee1992", "c78af28"]
+HOOK_COMMITS = ["b90bd7e", "6ee1992", "c78af28", "9917abb"]
 CHECKS = {
  "C01": dict(
    level=("proof", "Coq theorems for every register size n, target, ordered control/target pair, matrix and state: the blocked pair loop of "
@@ -14,6 +14,38 @@ CHECKS = {
    note="Trusted: Coq kernel + Coq.Reals axioms (sig_forall_dec, sig_not_dec, functional_extensionality_dep) for the matrix theorems only; extraction; "
         "OCaml/C++/Python glue; hooks H1,H3. Not modelled: binary64 rounding (1e-9 tolerance); exp as a power series.",
    technique="Coq proof (induction over loop enumeration, bit-level lemmas) + extraction-based correspondence with QasmSimulator"),
+ "C02": dict(
+   level=("proof", "Coq theorems over R for every register size, measured index, unit state and draw in [0,1): outcome 1 iff the draw is below "
+          "the squared norm of the bit=1 component (the Born interval), the sampled branch has positive probability, the post state is the "
+          "projection divided by sqrt(p) and has unit norm, an immediate re-read and any perfectly correlated qubit give the same value with "
+          "certainty; and (axiom-free, evaluator model) the returned bit, the stored last-measurement and the simulator outcome coincide. Tied "
+          "to the code by programs with injected draws either side of the Born probability, comparing echoed bit, stored value, flags and every "
+          "post-measurement amplitude; thorough adds a chi-square test of the real generator.", "DESIGN.md §6 C02"),
+   note="Trusted: Coq kernel + Coq.Reals axioms; extraction; glue; hooks H1-H3. Assumed: uniform RNG; binary64 rounding (draws kept 1e-7 from p1).",
+   technique="Coq proof over R (indexed sums) + extraction-based correspondence with injected draws"),
+ "C03": dict(
+   level=("proof", "Coq theorems: every reachable simulator state (any interleaving of allocate/gates/cx/measure/reset, any angles, draws in "
+          "[0,1)) has 2^n amplitudes and unit norm (induction over the history; unitarity of the pair loop, swaps, collapse and the sampled "
+          "reset with a reindexing permutation); allocation keeps existing amplitudes; in every history of the evaluator's bookkeeping "
+          "(declare / release / recycle) the indices behind live declarations and the free list are pairwise distinct and in range "
+          "(axiom-free). Tied by random histories incl. object destruction and index reuse, checking the implementation's vector for size, "
+          "finiteness and norm and comparing state, free list and flags with the model; corpus of aliasing programs must be rejected.", "DESIGN.md §6 C03"),
+   note="Trusted: Coq kernel + Coq.Reals axioms (norm part); extraction; glue; hooks H1-H3. Not modelled: rounding; hash-order of simultaneous destructions.",
+   technique="Coq proof (invariant by induction over op histories) + extraction-based correspondence"),
+ "C04": dict(
+   level=("proof", "Coq theorems over R for every n, target and unit state: after reset no amplitude remains on target=1, the norm is 1, and "
+          "p1*rho(branch 1)+(1-p1)*rho(branch 0) equals the reduced density matrix of the other qubits before the reset, entry by entry. "
+          "Tied by (a) a statement-level check of that identity on the real simulator with both branches forced, and (b) programs resetting "
+          "entangled qubits by statement, function, object destruction and index reuse compared amplitude by amplitude with the model.", "DESIGN.md §6 C04"),
+   note="Trusted: Coq kernel + Coq.Reals axioms; extraction; glue; hooks. Averaging over runs = two-branch identity; RNG uniformity assumed.",
+   technique="Coq proof over R + extraction-based correspondence + direct reduced-density check on the implementation"),
+ "C06": dict(
+   level=("proof", "Coq theorems (axiom-free) on the evaluator/simulator flag model for every op history: both flag vectors agree, a gate/cx/"
+          "measure on a measured qubit is refused with the located error, reset re-enables, an unmeasured qubit is never refused, measuring an "
+          "array marks every element, the simulator's position-less check is unreachable. Tied by all op sequences up to length 2 (quick) / 3 "
+          "(thorough) over a scalar and a 2-element register rendered through every access path, plus random histories.", "DESIGN.md §6 C06"),
+   note="Trusted: Coq kernel; extraction; glue; hooks H1-H3. Only the qubit-relevant part of the evaluator is modelled.",
+   technique="Coq proof (state-machine invariant) + exhaustive-small extraction-based correspondence"),
  "C20": dict(
    level=("proof", "13 Coq theorems (axiom-free) over a model of parseSemVer/compareSemVer/hasLatest/the --update decision/parseChecksum/"
           "the 72h notice throttle, for all strings, all checksums.txt contents and all invocation histories; the model is tied to "
